@@ -1,7 +1,7 @@
 (* C09/Properties.v — property C09: storage append follows Substrate semantics.
    Only statements, each closed by `exact <lemma>`, with Print Assumptions beneath. *)
 From Common Require Import Bytes Outcome.
-From C09 Require Import Model Proofs.
+From C09 Require Import Model Proofs ProofsGen.
 Local Open Scope N_scope.
 
 (* For every stored value and every item, storageAppend (as repaired by
@@ -68,3 +68,101 @@ Theorem C09_append_prefix_partial : forall strict cur item,
   not_extendable cur = false -> go_append_prefix strict cur item = Ok (substrate_append cur item).
 Proof. exact prefix_partial. Qed.
 Print Assumptions C09_append_prefix_partial.
+
+(* ================================================================== audit round (aud-rpc-host) *)
+
+(* storageAppend is right for EVERY length decoder that decodes each extendable canonical
+   Compact<u32> prefix to its value (dec_complete): nothing else about scale.Unmarshal matters,
+   because the function re-encodes the decoded length and compares it with the stored bytes. *)
+Theorem C09_append_any_decoder : forall dec, dec_complete dec ->
+  forall cur item, go_append_with dec cur item = substrate_append cur item.
+Proof. exact go_append_with_substrate. Qed.
+Print Assumptions C09_append_any_decoder.
+
+(* the three decoders pkg/scale has had are complete: the pinned zero-filling one, a strict one, and
+   dec_big_cur, the model of the decodeBigInt now in the tree (strict reads, canonical encodings only;
+   tied to scale.Unmarshal by the `dec` cases of the harness) *)
+Theorem C09_decoders_complete :
+  dec_complete (dec_big false) /\ dec_complete (dec_big true) /\ dec_complete dec_big_cur.
+Proof. exact (conj (dec_big_complete false) (conj (dec_big_complete true) dec_big_cur_complete)). Qed.
+Print Assumptions C09_decoders_complete.
+
+(* hence the model the driver replays (go_append_cur = storageAppend over dec_big_cur): *)
+Theorem C09_append_cur : forall cur item, go_append_cur cur item = substrate_append cur item.
+Proof. exact go_append_cur_substrate. Qed.
+Print Assumptions C09_append_cur.
+
+(* The two clauses of the property text, stated on the model of the Go code without the
+   transcription substrate_append.  (1) A value starting with a canonical compact length n, with
+   n+1 still fitting in u32, becomes length n+1 followed by the old items and the new item: *)
+Theorem C09_extends : forall n rest item, n < u32_max ->
+  go_append_cur (compact_u32_encode n ++ rest) item = compact_u32_encode (n + 1) ++ rest ++ item.
+Proof. exact (append_extends dec_big_cur dec_big_cur_complete). Qed.
+Print Assumptions C09_extends.
+
+(* (2) any other value is replaced by the one-item list: *)
+Theorem C09_replaces : forall cur item,
+  (forall n rest, n < u32_max -> cur <> compact_u32_encode n ++ rest) ->
+  go_append_cur cur item = encode_opaque_vec [item].
+Proof. exact (append_replaces dec_big_cur dec_big_cur_complete). Qed.
+Print Assumptions C09_replaces.
+
+(* the hypothesis of (2) is the decidable guard: the value is absent/empty or not_extendable *)
+Theorem C09_other_values : forall cur,
+  (forall n rest, n < u32_max -> cur <> compact_u32_encode n ++ rest) <->
+  (cur = [] \/ not_extendable cur = true).
+Proof. exact not_extendable_spec. Qed.
+Print Assumptions C09_other_values.
+
+(* non-vacuity of (2): the classes the property text lists — empty, truncated (two-byte, four-byte,
+   big mode), non-canonical (each mode), undecodable big mode, u32::MAX and 2^32 *)
+Example C09_other_values_classes :
+  forallb not_extendable
+    [bs [1]; bs [254; 255; 255]; bs [3; 255; 255]; bs [1; 0; 170]; bs [2; 0; 0; 0]; bs [3; 0; 0; 0; 0];
+     bs [3; 255; 255; 255; 63]; bs [7; 1; 0; 0; 0; 0]; bs [3; 255; 255; 255; 255]; bs [7; 0; 0; 0; 0; 1];
+     bs [255]] = true /\
+  not_extendable (bs [252; 1; 2]) = false /\ not_extendable (bs [3; 254; 255; 255; 255]) = false.
+Proof. vm_compute. repeat split; reflexivity. Qed.
+
+(* The host function ext_storage_append_version_1: key and item are the bytes the two spans denote
+   in the guest memory; the value stored under the key becomes substrate_append of the old value
+   (absent = empty) and the item, every other key is untouched (st_get_put_other); a span that does
+   not lie inside the memory makes the function panic before anything is stored. *)
+Theorem C09_host : forall m kspan vspan s,
+  (forall key item, mem_read m kspan = Ok key -> mem_read m vspan = Ok item ->
+     host_append m kspan vspan s = Ok (spec_host_append s key item)) /\
+  (mem_read m kspan = Panic \/ mem_read m vspan = Panic -> host_append m kspan vspan s = Panic).
+Proof.
+  intros m kspan vspan s. split.
+  - intros key item. exact (host_append_spec dec_big_cur dec_big_cur_complete m kspan vspan s key item).
+  - exact (host_append_out_of_range dec_big_cur m kspan vspan s).
+Qed.
+Print Assumptions C09_host.
+
+(* mem_read is total with exactly these two outcomes, decided by ptr + size <= memory size *)
+Theorem C09_host_spans : forall m span,
+  (span_ptr span + span_size span <= m_size m /\
+     exists l, mem_read m span = Ok l /\ N.of_nat (length l) = span_size span) \/
+  (m_size m < span_ptr span + span_size span /\ mem_read m span = Panic).
+Proof. exact mem_read_cases. Qed.
+Print Assumptions C09_host_spans.
+
+Theorem C09_host_other_keys : forall s key item k2, k2 <> key ->
+  st_get (spec_host_append s key item) k2 = st_get s k2 /\
+  st_get (spec_host_append s key item) key = substrate_append (st_get s key) item.
+Proof.
+  intros s key item k2 NE. unfold spec_host_append.
+  split; [now apply st_get_put_other | apply st_get_put_same].
+Qed.
+Print Assumptions C09_host_other_keys.
+
+(* non-vacuity: key "ab" at 16, item "cd" at 18 of a one-page memory; the same spans moved one byte
+   beyond the end of the memory *)
+Example C09_host_nonvacuous :
+  let m := {| m_size := 65536; m_base := 16; m_data := bs [171; 205] |} in
+  let s := [(bs [171], bs [4; 238])] in
+  host_append m 0x100000010 0x100000011 s = Ok [(bs [171], bs [8; 238; 205])] /\
+  host_append m 0x100000010 0x10000ffff s = Ok [(bs [171], bs [8; 238; 0])] /\
+  host_append m 0x100000010 0x200000ffff s = Panic /\
+  host_append m 0x10000 0x100000011 s = Ok [(bs [171], bs [4; 238]); ([], bs [4; 205])].
+Proof. vm_compute. repeat split; reflexivity. Qed.
